@@ -311,6 +311,9 @@ static void c03_rich_request(Run &run, const Step &s) {
     if (ares_dns_record_rr_add(&rr, rec, sect, owner.c_str(), t, ARES_CLASS_IN, e.ttl) != ARES_SUCCESS) { ok = false; break; }
     e.type = (uint16_t)t;
     std::string tgt = "ns" + std::to_string(r.below(5)) + "." + (r.chance(0.7) ? zone : std::string("other.example"));
+    // names with escaped characters, including an escaped dot directly in front of a suffix that was already written
+    if (r.chance(0.12)) tgt = "john\\." + zone;
+    else if (r.chance(0.06)) tgt = "a\\.b\\065." + std::string(r.chance(0.5) ? zone : "other.example");
     switch (t) {
       case ARES_REC_TYPE_A: { struct in_addr a; a.s_addr = htonl(0xC6336400u + (uint32_t)r.below(250)); ares_dns_rr_set_addr(rr, ARES_RR_A_ADDR, &a); e.addr.assign((const char *)&a, 4); break; }
       case ARES_REC_TYPE_AAAA: { struct ares_in6_addr a; memset(&a, 0, sizeof a); a._S6_un._S6_u8[0] = 0x20; a._S6_un._S6_u8[1] = 0x01; a._S6_un._S6_u8[15] = (unsigned char)r.below(250); ares_dns_rr_set_addr6(rr, ARES_RR_AAAA_ADDR, &a); e.addr.assign((const char *)&a, 16); break; }
